@@ -546,6 +546,191 @@ def w7_ba(run: Run, prog: Program):
                 f"documented are created")
 
 
+def w11_ba_pool(run: Run, prog: Program):
+    """Barabasi-Albert: the node under construction does not become drawable
+    before all its links are drawn (else it can draw itself: a loop, and one
+    link short)."""
+    net = prog.classes["Network"]
+    m = net.methods.get("BarabasiAlbert")
+    if m is None:
+        raise AnalysisError("Network.BarabasiAlbert vanished")
+    key = "Network.BarabasiAlbert"
+
+    def undecided(why):
+        run.unknowns.append(f"W11: {key}: {why}; the drawing order is not decided")
+        run.oblige("W11", key + ":pool-order", True, nontrivial=False)
+
+    def is_random(e):
+        return any(isinstance(c, ast.Call) and ("random" in ast.unparse(c.func) or
+                                                "rng" in ast.unparse(c.func))
+                   for c in ast.walk(e))
+    # the draw: `i = pool[<random index below bound>]` inside a rejection loop
+    draws = []
+
+    def visit(stmts, loops):
+        for st in stmts:
+            if isinstance(st, ast.Assign) and len(st.targets) == 1 and \
+                    isinstance(st.targets[0], ast.Name) and \
+                    isinstance(st.value, ast.Subscript) and \
+                    isinstance(st.value.value, ast.Name) and is_random(st.value.slice):
+                draws.append((st, list(loops)))
+            for fld in ("body", "orelse", "finalbody"):
+                sub = getattr(st, fld, None)
+                if isinstance(sub, list) and sub and isinstance(sub[0], ast.stmt):
+                    visit(sub, loops + [st] if isinstance(st, (ast.For, ast.While))
+                          else loops)
+    visit(m.node.body, [])
+    if len(draws) != 1:
+        return undecided(f"{len(draws)} draws `x = pool[random index]` found")
+    draw, loops = draws[0]
+    pool = draw.value.value.id
+    drawn = draw.targets[0].id
+    fors = [l for l in loops if isinstance(l, ast.For) and isinstance(l.target, ast.Name)]
+    if len(fors) != 2:
+        return undecided(f"the draw is nested in {len(fors)} counted loops, not in "
+                         f"`for new node: for link:`")
+    outer, inner = fors
+    j = outer.target.id
+    assigned = {t.id for n in ast.walk(m.node) if isinstance(n, (ast.Assign, ast.AugAssign))
+                for t in (n.targets if isinstance(n, ast.Assign) else [n.target])
+                if isinstance(t, ast.Name)}
+    bounds = {n.id for n in ast.walk(draw.value.slice) if isinstance(n, ast.Name)} & assigned
+    # does the drawable region grow while the node still draws?
+    grows = [n for n in ast.walk(inner) if isinstance(n, (ast.Assign, ast.AugAssign)) and any(
+        isinstance(t, ast.Name) and t.id in bounds
+        for t in (n.targets if isinstance(n, ast.Assign) else [n.target]))]
+    # is the new node written into the pool while it still draws?
+    enters = [n for n in ast.walk(inner) if isinstance(n, ast.Assign) and any(
+        isinstance(t, ast.Subscript) and isinstance(t.value, ast.Name) and t.value.id == pool
+        for t in n.targets) and any(isinstance(x, ast.Name) and x.id == j
+                                    for x in ast.walk(n.value))]
+    # a guard that rejects the node itself
+    selfguard = any(
+        isinstance(c, ast.Compare) and len(c.ops) == 1 and
+        isinstance(c.ops[0], (ast.NotEq, ast.Eq)) and
+        {ast.unparse(c.left), ast.unparse(c.comparators[0])} == {drawn, j}
+        for c in ast.walk(inner))
+    # ... or the duplicate bookkeeping primed with the node itself before it draws
+    primed = any(
+        isinstance(st, ast.Assign) and isinstance(st.targets[0], ast.Subscript) and
+        ast.unparse(st.targets[0].slice) == j and ast.unparse(st.value) == j
+        for st in outer.body if st is not inner)
+    ok = not (grows and enters) or selfguard or primed
+    run.oblige("W11", key + ":pool-order", ok, sample={
+        "pool": pool, "bound": sorted(bounds), "new_node": j,
+        "pool_gets_new_node_while_drawing": bool(enters),
+        "bound_grows_while_drawing": bool(grows)})
+    if not ok:
+        run.add("W11", f"{key}/pool-order", f"{m.module.relpath}:{enters[0].lineno}",
+                f"BarabasiAlbert: `{ast.unparse(enters[0])}` puts the node under "
+                f"construction `{j}` into the target pool `{pool}` and "
+                f"`{ast.unparse(grows[0])}` makes it drawable while `{j}` is still "
+                f"drawing its remaining partners; nothing rejects `{drawn} == {j}`, so "
+                f"the node can draw itself: a self-loop (no simple graph) and one link "
+                f"less than documented")
+
+
+def w12_full_adjacency(run: Run, prog: Program):
+    """Cross-link models: the adjacency of the returned network starts as a copy
+    of the *whole* input adjacency (only the cross block is rewritten)."""
+    inw = prog.classes["InteractingNetworks"]
+    COPY = ("astype", "copy", "tolil", "tocsc", "tocsr", "todok", "toarray", "todense")
+    FRESH = ("np.zeros", "np.empty", "np.zeros_like", "np.empty_like", "np.ones",
+             "sp.lil_matrix", "sp.csc_matrix", "sp.csr_matrix", "sp.dok_matrix",
+             "sparse.lil_matrix", "sparse.csc_matrix", "sparse.csr_matrix",
+             "sparse.dok_matrix", "lil_matrix", "csc_matrix", "csr_matrix", "dok_matrix")
+    n = 0
+    for name, m in sorted(inw.methods.items()):
+        rets = [c for r in ast.walk(m.node) if isinstance(r, ast.Return) and
+                isinstance(r.value, ast.Call)
+                for c in [r.value] if ast.unparse(c.func) in ("InteractingNetworks", "cls")]
+        if not rets or not m.params:
+            continue
+        src = m.params[0] if m.params[0] not in ("self", "cls") else \
+            (m.params[1] if len(m.params) > 1 else None)
+        if src is None or not any(
+                isinstance(a, ast.Attribute) and isinstance(a.value, ast.Name) and
+                a.value.id == src for a in ast.walk(m.node)):
+            continue
+        for c in rets:
+            adj = next((k.value for k in c.keywords if k.arg == "adjacency"),
+                       c.args[0] if c.args else None)
+            if adj is None:
+                continue
+            n += 1
+            key = f"InteractingNetworks.{name}"
+            e = adj
+            seen = set()
+            verdict = None
+            while True:
+                if isinstance(e, ast.Call) and isinstance(e.func, ast.Attribute) and \
+                        e.func.attr in COPY:
+                    e = e.func.value
+                elif isinstance(e, ast.Call) and ast.unparse(e.func) in (
+                        "np.array", "np.asarray", "to_cy", "np.ascontiguousarray") and e.args:
+                    e = e.args[0]
+                elif isinstance(e, ast.Attribute) and e.attr in ("A", "T"):
+                    e = e.value
+                elif isinstance(e, ast.Name) and e.id not in seen:
+                    seen.add(e.id)
+                    defs = [st for st in ast.walk(m.node) if isinstance(st, ast.Assign)
+                            and any(isinstance(t, ast.Name) and t.id == e.id
+                                    for t in st.targets)]
+                    if len(defs) != 1:
+                        verdict = ("unknown", f"`{e.id}` has {len(defs)} definitions")
+                        break
+                    e = defs[0].value
+                else:
+                    break
+            if verdict is None:
+                if isinstance(e, ast.Attribute) and isinstance(e.value, ast.Name) and \
+                        e.value.id == src and e.attr in ("adjacency", "sp_A"):
+                    verdict = ("ok", ast.unparse(e))
+                elif isinstance(e, ast.Call) and ast.unparse(e.func) in FRESH:
+                    verdict = ("fresh", ast.unparse(e))
+                    # ... unless the whole input is copied into it afterwards
+                    for st in ast.walk(m.node):
+                        whole = False
+                        if isinstance(st, ast.AugAssign) and isinstance(st.target, ast.Name) \
+                                and st.target.id in seen:
+                            whole = True
+                        if isinstance(st, ast.Assign):
+                            for t in st.targets:
+                                if isinstance(t, ast.Subscript) and \
+                                        isinstance(t.value, ast.Name) and t.value.id in seen:
+                                    idx = t.slice.elts if isinstance(t.slice, ast.Tuple) \
+                                        else [t.slice]
+                                    if all(isinstance(i_, ast.Slice) and i_.lower is None
+                                           and i_.upper is None for i_ in idx) or \
+                                            isinstance(t.slice, ast.Constant):
+                                        whole = True
+                        if isinstance(st, ast.Call) and isinstance(st.func, ast.Attribute) \
+                                and isinstance(st.func.value, ast.Name) and \
+                                st.func.value.id in seen and st.func.attr not in COPY:
+                            whole = True        # filled by a method (setdiag, update, ...)
+                        if whole:
+                            verdict = ("unknown", f"a fresh matrix that "
+                                       f"`{ast.unparse(st)[:50]}` fills")
+                            break
+                else:
+                    verdict = ("unknown", f"origin `{ast.unparse(e)[:50]}`")
+            if verdict[0] == "unknown":
+                run.unknowns.append(f"W12: {key}: the returned adjacency has "
+                                    f"{verdict[1]}; not decided")
+                run.oblige("W12", key, True, nontrivial=False)
+                continue
+            run.oblige("W12", key, verdict[0] == "ok", sample={"origin": verdict[1]})
+            if verdict[0] == "fresh":
+                run.add("W12", f"{key}/fresh-adjacency",
+                        f"{m.module.relpath}:{c.lineno}",
+                        f"{key}: the adjacency of the returned network starts as the "
+                        f"empty matrix `{verdict[1]}` and is filled from the two node "
+                        f"lists only; links of nodes that are in neither list (a third "
+                        f"subnetwork) are not carried over, so parts of the input "
+                        f"network that the model does not touch are lost")
+    run.floor("W12 cross-link models", n, 3)
+
+
 def _dnf(e):
     """Disjunctive normal form of a boolean IR expression: [[atom, ...], ...]"""
     if e.k == "boolop" and e.a[0] == "or":
@@ -821,6 +1006,10 @@ def check(run: Run, prog: Program, cy: CyProgram, sites):
              "kind of inputs (E links, one edge row per link)")
     run.rule("W6", "node arrays of the cross-link models keep the caller's order")
     run.rule("W7", "the Barabasi-Albert duplicate guard tests the cell it updates")
+    run.rule("W11", "Barabasi-Albert: the node under construction is not drawable "
+             "before all its links are drawn (no self-loop)")
+    run.rule("W12", "cross-link models build the result from a copy of the whole input "
+             "adjacency (untouched parts survive)")
     run.explanation = (
         "Structural necessary conditions of C17 for the compiled rewiring kernels "
         "and their wrappers. igraph generators, distributions and the link-length "
@@ -840,3 +1029,5 @@ def check(run: Run, prog: Program, cy: CyProgram, sites):
     w5_siblings(run, prog, cy)
     w6_order(run, prog)
     w7_ba(run, prog)
+    w11_ba_pool(run, prog)
+    w12_full_adjacency(run, prog)
